@@ -208,6 +208,9 @@ class Gen:
         cands = [pool.name(x) for x in ends if x is not None and not pool.name(x).startswith("?")]
         third = [v for v in self.vertices(pool) if v not in cands]
         r = self.rng.random()
+        if len(cands) < len(ends) and self.rng.random() < 0.3:
+            # a half-open edge: open it completely (or re-assign None to the open end)
+            return [which, e, None]
         if r < 0.45 and cands:
             x = self.rng.choice(cands)
         elif r < 0.9 and third:
